@@ -598,6 +598,8 @@ static Token *subst(Token *tok, MacroArg *args) {
 
     if (arg && equal(tok->next, "##")) {
       Token *rhs = tok->next->next;
+      if (rhs->kind == TK_EOF)
+        error_tok(tok->next, "'##' cannot appear at end of macro expansion");
 
       // The first token of the result stands where the parameter `tok`
       // stood, so it takes the white space of `tok`, not the white space
